@@ -230,7 +230,7 @@ def downselect_move_info(
     normalized_probability = move_info.probability.copy()
     # Find the largest terms to evaluate deterministically
     indices_deterministic = np.argsort(normalized_probability, axis=1)[
-        :, -nselect_deterministic:
+        :, npoints - nselect_deterministic :
     ]  # nconf x nselect_deterministic
     np.put_along_axis(
         normalized_probability, indices_deterministic, 0.0, axis=1
